@@ -366,6 +366,17 @@ func cases(thorough bool) []Case {
 func Run(c *vk.Ctx) {
 	debug.SetPanicOnFault(true)
 	if c.Replay != "" {
+		var mc MixedCase
+		c.LoadReplay(&mc)
+		if mc.Mixed {
+			f := runMixed(mc.Ops)
+			fmt.Printf("replay mixed-receivers ops=%v\nresult: %s\n", mc.Ops, f)
+			if f != "" {
+				c.Violate("replay", f, mc)
+			}
+			c.Finish()
+			return
+		}
 		var cs Case
 		c.LoadReplay(&cs)
 		fmt.Printf("replay mocks=%s k=%d\n", cs.id(), cs.K)
@@ -438,6 +449,7 @@ func Run(c *vk.Ctx) {
 		}
 		c.Violate(key(&cs, fl), fl.desc, cs)
 	}
+	runMixedAll(c, int64(len(all)))
 	c.Res.Extra["targets"] = t6.NMethods
 	c.Res.Extra["probes_per_phase"] = t6.NProbes
 	c.Res.Extra["cases"] = len(all)
